@@ -1010,6 +1010,24 @@ func (c *Client) loadServerCert(cert string) error {
 }
 
 func (c *Client) reattach() (net.Addr, error) {
+	// The protocol comes from the reattach config instead of a handshake
+	// line, but it is still subject to the client's allowed protocols.
+	protocol := c.config.Reattach.Protocol
+	if protocol == "" {
+		protocol = ProtocolNetRPC
+	}
+	allowed := false
+	for _, p := range c.config.AllowedProtocols {
+		if p == protocol {
+			allowed = true
+			break
+		}
+	}
+	if !allowed {
+		return nil, fmt.Errorf("Unsupported plugin protocol %q. Supported: %v",
+			protocol, c.config.AllowedProtocols)
+	}
+
 	reattachFunc := c.config.Reattach.ReattachFunc
 	// For backwards compatibility default to cmdrunner.ReattachFunc
 	if reattachFunc == nil {
